@@ -193,3 +193,70 @@ mod tests {
         assert_eq!(2, reply.additional_records.len());
     }
 }
+
+/// verification hook: thin public wrappers over crate-private items (no logic of their own)
+#[cfg(simple_dns_verif)]
+pub mod verif {
+    pub use crate::resource_record_manager::{DomainResourceFilter, ResourceRecordManager};
+    use crate::InstanceInformation;
+    use simple_dns::{Name, Packet, ResourceRecord};
+
+    /// calls the crate-private `build_reply`
+    pub fn build_reply<'b>(
+        packet: Packet,
+        resources: &'b ResourceRecordManager<'b>,
+    ) -> Option<(Packet<'b>, bool)> {
+        crate::build_reply(packet, resources)
+    }
+
+    /// calls the crate-private `InstanceInformation::from_records`
+    pub fn from_records<'b>(
+        service_name: &Name<'b>,
+        records: impl Iterator<Item = &'b ResourceRecord<'b>>,
+    ) -> Option<InstanceInformation> {
+        InstanceInformation::from_records(service_name, records)
+    }
+
+    /// calls the private `add_response_to_resources` of the sync service discovery
+    #[cfg(feature = "sync")]
+    pub fn add_response_to_resources(
+        packet: Packet,
+        service_name: &Name<'_>,
+        full_name: &Name<'_>,
+        owned_resources: &mut ResourceRecordManager,
+        on_discovery: &mut Option<std::sync::mpsc::Sender<InstanceInformation>>,
+    ) {
+        crate::sync_discovery::verif_add_response_to_resources(
+            packet,
+            service_name,
+            full_name,
+            owned_resources,
+            on_discovery,
+        )
+    }
+}
+
+/// verification hook: wrapper over the private `add_response_to_resources` of the tokio service discovery
+#[cfg(all(simple_dns_verif, feature = "async-tokio"))]
+pub mod verif_async {
+    use crate::{resource_record_manager::ResourceRecordManager, InstanceInformation};
+    use simple_dns::{Name, Packet};
+
+    /// calls the private async `add_response_to_resources`
+    pub async fn add_response_to_resources(
+        packet: Packet<'_>,
+        service_name: &Name<'_>,
+        full_name: &Name<'_>,
+        owned_resources: &mut ResourceRecordManager<'static>,
+        on_discovery: &mut Option<tokio::sync::mpsc::Sender<InstanceInformation>>,
+    ) {
+        crate::async_discovery::verif_add_response_to_resources(
+            packet,
+            service_name,
+            full_name,
+            owned_resources,
+            on_discovery,
+        )
+        .await
+    }
+}
